@@ -1,5 +1,6 @@
 import Clikit.Drv.Util
 import Clikit.Model.Parser
+import Clikit.Model.Sem
 /-!
 Driver entries of the parser model, shared by C01, C02 and C05:
 `c01.parse` (one request) and `c05.history` (requests issued to ONE parser object).
@@ -131,6 +132,22 @@ def handle (m : String) (j : Json) : Option (R Json) :=
   | "c01.parse" => some do
       let (cv, f, len, toks) ← reqOf j
       return jArgs f (parse cv f len toks)
+  | "c01.sem" => some do
+      -- the token-free meaning of a list of items (Model/Sem.lean), then `parse()`'s second half
+      let f ← fmtOf (← field j "fmt")
+      let len ← fBool j "lenient"
+      let cv ← convOf j
+      let items ← (← fArr j "sems").toList.mapM fun (e : Json) => do
+        match fOpt e "pos" with
+        | some (.str v) => pure (Sem.pos v.toList)
+        | some _ => throw "pos: string expected"
+        | none =>
+          let long ← fChars e "opt"
+          let v ← fOptChars e "v"
+          match f.opts.find? (fun o => o.long == long) with
+          | some o => pure (Sem.opt o v)
+          | none => throw s!"unknown option in sems"
+      return jArgs f (parseSem cv f len items)
   | "c05.history" => some do
       let reqs ← (← fArr j "requests").toList.mapM reqOf
       let rec go (prev : St) : List (Conv × Fmt × Bool × List Str) → List Json
